@@ -146,7 +146,8 @@ def body(run, a):
     msg = T.var('msg', 8 * L)
     args = [Buf('msg', L, init=msg, writable=False), Sc('len', 64, L), Buf('out', 512, init=T.var('out0', 4096))]
     res, ex = entry.run(mod, 'h_skein512_64', args)
-    got = res[0].mem(res[0].named['out'], 0, 64)
+    r_ = [x for x in res if x.status == 'ret'][0]
+    got = r_.mem(r_.named['out'], 0, 64)
     old = spec.T1_FINAL
     spec.T1_FINAL = 0
     bad = spec.skein(msg, L, 64, 8)
